@@ -18,6 +18,26 @@ class Boom(Exception):
         self.x = x
 
 
+class StopBoom(StopIteration):
+    """What f raises when it calls next() on an exhausted iterator: cannot travel through an asyncio Future."""
+    def __init__(self, x):
+        super().__init__(x)
+        self.x = x
+
+
+class KeyBoom(KeyError):
+    def __init__(self, x):
+        super().__init__(x)
+        self.x = x
+
+
+EXC = {'Boom': Boom, 'Stop': StopBoom, 'Key': KeyBoom}
+
+
+class Hang(BaseException):
+    """Raised by the harness alarm in the calling thread when the function under test has not returned."""
+
+
 def out_of(elem):
     if elem is None:
         return ('out', -1, None)
@@ -25,7 +45,7 @@ def out_of(elem):
 
 
 class Controller:
-    def __init__(self, elems, threads, chunksize, priority, raising=(), stable_s=0.15, stuck_s=8.0):
+    def __init__(self, elems, threads, chunksize, priority, raising=(), stable_s=0.15, stuck_s=8.0, exc='Boom'):
         self.elems = list(elems)
         self.index = {e: i for i, e in enumerate(self.elems)}
         self.n = n = len(self.elems)
@@ -33,6 +53,7 @@ class Controller:
         self.chunksize = chunksize if chunksize else max(1, n)
         self.priority = priority  # list: rank of element index (lower = released first among in-flight)
         self.raising = set(raising)
+        self.exc_cls = EXC[exc]
         self.stable_s = stable_s
         self.stuck_s = stuck_s
         self.cv = threading.Condition()
@@ -64,7 +85,7 @@ class Controller:
             self.finished_calls += 1
             self.cv.notify_all()
         if x in self.raising:
-            raise Boom(x)
+            raise self.exc_cls(x)
         return out_of(elem)
 
     # controller ------------------------------------------------------------------------------
